@@ -927,6 +927,11 @@ fn gen_outbound(kind: OutKind, ch: &mut Choices) -> Plan {
         // the shared state from inside the dispatcher's acknowledgement path
         plan.cfg.cb_queries = true;
         plan.tags.push("cb-queries".into());
+        if ch.chance(1, 2) {
+            // ... and sends from there (QoS 0: no window slot, no acknowledgement; the packet belongs to no sender op)
+            plan.cfg.cb_sends = true;
+            plan.tags.push("cb-sends".into());
+        }
     }
     plan
 }
